@@ -212,6 +212,14 @@ func (s *c08Srv) serveConn(c net.Conn) {
 				io.WriteString(c, httpHead(405, "text/plain", "", 0))
 				continue
 			}
+			if s.sc.At == "connect-stall" {
+				// the stream's response headers never come: the client is still shaking hands
+				s.mu.Lock()
+				s.calls = s.sc.NCalls
+				s.mu.Unlock()
+				close(s.callsCh)
+				return
+			}
 			io.WriteString(c, httpHead(200, "text/event-stream", "Cache-Control: no-cache\r\n", -1))
 			io.WriteString(c, "event: endpoint\ndata: /message?sessionId=s1\n\n")
 			s.mu.Lock()
@@ -447,6 +455,61 @@ func c08Run(sc c08Scenario) (res c08Result) {
 		cl, stdioCl = c, c
 	default:
 		res.Broken = "unknown client " + sc.Client
+		return
+	}
+	if sc.At == "connect-stall" {
+		// Close() while the handshake is still waiting for the stream's response headers: the handshake ends, and what the
+		// client holds towards the (still living, silent) server is released
+		res.Calls = make([]c08Call, 1)
+		call := &res.Calls[0]
+		start := time.Now()
+		ictx, icancel := context.WithTimeout(context.Background(), 1500*time.Millisecond)
+		call.CtxEndMs = ms(start.Add(1500 * time.Millisecond))
+		idone := make(chan error, 1)
+		go func() { _, e := cl.Initialize(ictx, &mcp.InitializeRequest{}); idone <- e }()
+		select {
+		case <-srv.callsCh:
+		case <-time.After(2 * time.Second):
+		}
+		time.Sleep(100 * time.Millisecond)
+		res.FaultMs = ms(time.Now())
+		tc := time.Now()
+		cdone := make(chan struct{})
+		go func() { cl.Close(); close(cdone) }()
+		select {
+		case <-cdone:
+		case <-time.After(8 * time.Second):
+			res.CloseErr = "Close did not return within 8 s"
+		}
+		res.CloseMs = float64(time.Since(tc)) / float64(time.Millisecond)
+		select {
+		case e := <-idone:
+			if e != nil {
+				call.Err = e.Error()
+			} else {
+				call.OK = true
+			}
+		case <-time.After(6 * time.Second):
+			call.Hung = true
+		}
+		icancel()
+		call.EndMs = ms(time.Now())
+		// the server is still there and silent: measure BEFORE it goes away
+		dl := time.Now().Add(1500 * time.Millisecond)
+		for {
+			http.DefaultTransport.(*http.Transport).CloseIdleConnections()
+			g1, sample := libGoroutines()
+			res.LibG, res.HTTPG, res.FDs, res.Sample = g1-g0, httpConnGoroutines()-h0, countFDs()-fd0-len(srv.conns)-1, sample
+			if (res.LibG <= 0 && res.HTTPG <= 0) || time.Now().After(dl) {
+				break
+			}
+			time.Sleep(25 * time.Millisecond)
+		}
+		res.FDs = 0 // descriptors: the served side of the stalled connection is ours and still open; goroutines decide here
+		if res.LibG <= 0 {
+			res.Sample = ""
+		}
+		srv.closeAll()
 		return
 	}
 	ictx, icancel := context.WithTimeout(context.Background(), 5*time.Second)
